@@ -82,6 +82,12 @@ def transforms():
     def t_inline_functions(dsk, keys):
         return O.inline_functions(dsk, keys, fast_functions=FUNCS[:4]), None
 
+    def t_inline_functions_constants(dsk, keys):
+        return O.inline_functions(dsk, keys, fast_functions=FUNCS[:4], inline_constants=True), None
+
+    def t_inline_functions_dependencies(dsk, keys):
+        return O.inline_functions(dsk, keys, fast_functions=FUNCS[:4], dependencies={k: get_dependencies(dsk, k) for k in dsk}), None
+
     def t_fuse_linear(dsk, keys):
         out, deps = O.fuse_linear(dsk, keys)
         return out, deps
@@ -101,7 +107,7 @@ def transforms():
         g = convert_legacy_graph(dsk)
         return resolve_aliases(g, set(keys), reverse_dict(DependenciesMapping(g))), None
 
-    ts = [t_cull, t_inline, t_inline_functions, t_fuse_linear, t_fuse_spec, t_resolve_aliases]
+    ts = [t_cull, t_inline, t_inline_functions, t_inline_functions_constants, t_inline_functions_dependencies, t_fuse_linear, t_fuse_spec, t_resolve_aliases]
     for aw in (1, 2, float("inf")):
         for rk in (True, False):
             ts.append(mk_fuse(ave_width=aw, rename_keys=rk))
